@@ -68,3 +68,102 @@ def find_race(traces, observable, extra=(), timeout_ms=60000):
     order = sorted(evs, key=lambda e: m.eval(pos[e]).as_long())
     hit = [(r, w) for b, (r, w) in zip(disj, tags) if z3.is_true(m.eval(b))]
     return "sat", dict(model=m, order=order, hit=hit), stats
+
+
+# ---------------------------------------------------------------------------------------------------------
+# generic reads-from exploration over recorded access traces (vf.conc events)
+# ---------------------------------------------------------------------------------------------------------
+
+def relevant(traces):
+    """keep the events on cells that some thread writes"""
+    wl = {}
+    for tr in traces.values():
+        for e in tr:
+            if e.kind == "W":
+                wl.setdefault(e.label, []).append(e)
+    out = {}
+    for t, tr in traces.items():
+        out[t] = [e for e in tr if e.label in wl and any(e.conflicts(w) for w in wl[e.label])]
+    return out
+
+
+def candidates(traces):
+    """(read, foreign write) pairs in which the read could observe a value it does not observe when its operation
+    runs alone: the foreign write's value differs from the value the read saw in the solo recording (or either side
+    concerns the whole object)"""
+    out = []
+    for t, tr in traces.items():
+        for r in tr:
+            if r.kind != "R":
+                continue
+            for t2, tr2 in traces.items():
+                if t2 == t:
+                    continue
+                for w in tr2:
+                    if w.kind == "W" and w.conflicts(r) and (r.key is None or w.key is None or w.val != r.val):
+                        out.append((r, w))
+    return out
+
+
+def schedule_with(traces, r, w, timeout_ms=20000):
+    """z3: an interleaving (total order respecting each thread's program order) in which read r observes write w,
+    i.e. w precedes r and no other write to the cell lies between them.  Tried first in the two simplest shapes
+    (reader's prefix, writer up to w, read / writer up to w, reader from the start), then unconstrained.
+    Returns (status, order, stats)."""
+    evs = [e for tr in traces.values() for e in tr]
+    pos = {id(e): z3.Int(f"p_{e.thread}_{e.idx}") for e in evs}
+    base = [z3.Distinct(*pos.values())] if len(evs) > 1 else []
+    for e in evs:
+        base += [pos[id(e)] >= 0, pos[id(e)] < len(evs)]
+    for tr in traces.values():
+        for a, b in zip(tr, tr[1:]):
+            base.append(pos[id(a)] < pos[id(b)])
+    base.append(pos[id(w)] < pos[id(r)])
+    for w2 in evs:
+        if w2.kind == "W" and w2 is not w and w2.conflicts(r):
+            base.append(z3.Or(pos[id(w2)] < pos[id(w)], pos[id(w2)] > pos[id(r)]))
+    tr_r, tr_w = traces[r.thread], traces[w.thread]
+    shape1 = [pos[id(e)] < pos[id(tr_w[0])] for e in tr_r if e.idx < r.idx] + [pos[id(e)] > pos[id(r)] for e in tr_w if e.idx > w.idx]
+    shape2 = [pos[id(e)] < pos[id(tr_r[0])] for e in tr_w if e.idx <= w.idx] + [pos[id(e)] > pos[id(r)] for e in tr_w if e.idx > w.idx]
+    stats = dict(events=len(evs), queries=0, solver_s=0.0)
+    last = "unsat"
+    for extra in (shape1, shape2, []):
+        s = z3.Solver()
+        s.set("timeout", timeout_ms)
+        s.add(*base)
+        s.add(*extra)
+        t0 = time.time()
+        res = s.check()
+        stats["queries"] += 1
+        stats["solver_s"] += time.time() - t0
+        if res == z3.sat:
+            m = s.model()
+            order = sorted(evs, key=lambda e: m.eval(pos[id(e)], model_completion=True).as_long())
+            return "sat", order, stats
+        if res != z3.unsat:
+            last = "unknown"
+    return last, None, stats
+
+
+def plan_of(order, hit, traces):
+    """line-gated plan [(thread, stop)] realising `order` up to and including the event `hit`: each thread runs its
+    consecutive events and pauses before its next relevant event (stop = that event's line occurrence; None = run to
+    completion when it has none); after the hit its thread runs on to completion, then the others."""
+    segs = []
+    for e in order:
+        if segs and segs[-1][0] == e.thread:
+            segs[-1][1].append(e)
+        else:
+            segs.append((e.thread, [e]))
+        if e is hit:
+            break
+    plan = []
+    for (t, es) in segs:
+        last = es[-1]
+        tr = traces[t]
+        k = tr.index(last)
+        nxt = tr[k + 1] if k + 1 < len(tr) else None
+        plan.append((t, (nxt.file, nxt.line, nxt.occ) if nxt is not None else None))
+    if plan:
+        plan[-1] = (plan[-1][0], None)
+    return plan
